@@ -203,8 +203,9 @@ LeafNode(l) ==
    isco |-> l.k = "coarg", hasform |-> l.k = "form"]
 
 WeightSeq == <<QI(0), QI(1), QI(-1), QI(2), QN(1, 2)>>
-\* weights of the three-component sums: non-zero, dyadic (exact as Python floats); a triple
-\* offered to WSum has pairwise different entries, and all but the third have no unit weight
+\* weights of the three-component sums: non-zero, dyadic (exact as Python floats); every triple
+\* offered to WSum has pairwise different entries; only the third triple (1, 3, -2) has a unit
+\* weight
 SumWeightSeq == <<QI(3), QI(-2), QN(1, 2), QI(5), QN(-3, 2), QI(-4), QI(1)>>
 WeightTriples == << <<1, 2, 3>>, <<4, 5, 6>>, <<7, 1, 2>>, <<3, 6, 4>> >>
 \* replace(A, {q: r}): f -> f2, f2 -> f, c -> c2, c2 -> c (same space, same kind)
